@@ -149,6 +149,39 @@ Definition gcase_multi : G (list case) :=
          mk_case "tls_parser" [] input sx_plain None;
          mk_case "parse_tls_plaintext" [] input sx_plain None ].
 
+(* handshake bodies through the public body-level entry points (exact body, no trailing bytes) *)
+Definition gcase_hsbody : G (list case) :=
+  do h <- ghandshake;
+  let b := enc_hs_body h in
+  let n := lenN b in
+  gret (match h with
+        | HHelloRequest => [mk_case "parse_tls_handshake_msg_hello_request" [] b sx_hs (Some ([], h))]
+        | HClientHello c => [mk_case "parse_tls_handshake_msg_client_hello" [] b sx_hs (Some ([], h));
+                             mk_case "parse_tls_handshake_client_hello" [] b sx_ch (Some ([], c))]
+        | HServerHello c => [mk_case "parse_tls_handshake_msg_server_hello" [] b sx_hs (Some ([], h));
+                             mk_case "parse_tls_handshake_server_hello" [] b sx_sh (Some ([], c))]
+        | HServerHelloV13Draft18 _ => [mk_case "parse_tls_handshake_msg_server_hello" [] b sx_hs (Some ([], h))]
+        | HNewSessionTicket _ _ => [mk_case "parse_tls_handshake_msg_newsessionticket" [n] b sx_hs (Some ([], h))]
+        | HEndOfEarlyData => []
+        | HHelloRetryRequest _ => [mk_case "parse_tls_handshake_msg_hello_retry_request" [] b sx_hs (Some ([], h))]
+        | HCertificate _ => [mk_case "parse_tls_handshake_msg_certificate" [] b sx_hs (Some ([], h))]
+        | HServerKeyExchange _ => [mk_case "parse_tls_handshake_msg_serverkeyexchange" [n] b sx_hs (Some ([], h))]
+        | HCertificateRequest c => [mk_case "parse_tls_handshake_msg_certificaterequest" [] b sx_hs (Some ([], h));
+                                    mk_case "parse_tls_handshake_certificaterequest" [] b sx_cr (Some ([], c))]
+        | HServerDone _ => [mk_case "parse_tls_handshake_msg_serverdone" [n] b sx_hs (Some ([], h))]
+        | HCertificateVerify _ => [mk_case "parse_tls_handshake_msg_certificateverify" [n] b sx_hs (Some ([], h))]
+        | HClientKeyExchange _ => [mk_case "parse_tls_handshake_msg_clientkeyexchange" [n] b sx_hs (Some ([], h))]
+        | HFinished _ => [mk_case "parse_tls_handshake_msg_finished" [n] b sx_hs (Some ([], h))]
+        | HCertificateStatus t bl => [mk_case "parse_tls_handshake_msg_certificatestatus" [] b sx_hs (Some ([], h));
+                                      mk_case "parse_tls_handshake_certificatestatus" [] b
+                                        (fun p => C "CertificateStatus" [SN (fst p); SS (snd p)]) (Some ([], (t, bl)))]
+        | HNextProtocol a pd => [mk_case "parse_tls_handshake_msg_next_protocol" [] b sx_hs (Some ([], h));
+                                 mk_case "parse_tls_handshake_next_protocol" [] b
+                                   (fun p => C "NextProtocol" [SS (fst p); SS (snd p)]) (Some ([], (a, pd)))]
+        | HKeyUpdate _ => [mk_case "parse_tls_handshake_msg_key_update" [] b sx_hs (Some ([], h))]
+        end).
+
 Definition families_tls : list (string * G (list case)) := [
+  ("hsbody", gcase_hsbody);
   ("record", gcase_record); ("opaque", gcase_opaque); ("toolarge", gcase_toolarge);
   ("handshake", gcase_handshake); ("message", gcase_message); ("multi", gcase_multi) ]%string.
